@@ -200,6 +200,15 @@ func (g *Graph) VertexAt(pos, end token.Pos) int {
 			}
 		}
 	}
+	if best == -1 {
+		// no vertex spans the node (e.g. a DeclStmt, whose ValueSpecs are the CFG nodes,
+		// or an if/for statement): take the first vertex inside it
+		for _, v := range g.nodes {
+			if pos <= v.Node.Pos() && v.Node.End() <= end {
+				return v.ID
+			}
+		}
+	}
 	return best
 }
 
@@ -207,6 +216,9 @@ func (g *Graph) VertexAt(pos, end token.Pos) int {
 // vertices and without taking blocked edges. `from` itself is always included.
 func (g *Graph) Reach(from int, blockedV func(int) bool, blockedE func(*Edge) bool) []bool {
 	seen := make([]bool, len(g.V))
+	if from < 0 || from >= len(g.V) {
+		return seen
+	}
 	stack := []int{from}
 	seen[from] = true
 	for len(stack) > 0 {
